@@ -159,6 +159,35 @@ def grouping_specs(draw, q):
             "style": style, "opt": draw(st.sampled_from(["peak coolant temp", "peak clad MW temp"]))}
 
 
+def check_distribution(o, orf, m, n, sid, tp, m_expected, dp_limit, tag):
+    """m: flows returned by distribute() (one per grouped assembly, ordered by id); tp: true type index per assembly."""
+    N = len(sid)
+    ok = m.shape == (N,) and bool(np.all(np.isfinite(m)))
+    o.check(ok, "flows_not_finite" + tag, "shape %s, finite %s" % (m.shape, bool(np.all(np.isfinite(m))) if m.shape == (N,) else "-"))
+    if not ok:
+        return False
+    g = np.asarray(orf.group_data)[:, 2].astype(int)
+    for gi in range(n):
+        mg = m[g == gi]
+        o.check(mg.size > 0 and bool(np.all(mg == mg[0])), "unequal_flow_within_group" + tag,
+                "group %d flows %s" % (gi, mg[:6].tolist()))
+    tot = float(np.sum(m))
+    o.check(abs(tot - m_expected) <= 1e-9 * m_expected + 1e-12, "flows_do_not_sum_to_required_total" + tag,
+            "sum %.12g, required %.12g" % (tot, m_expected))
+    o.metrics["rel_flow_sum_error"] = max(o.metrics.get("rel_flow_sum_error", 0.0), abs(tot - m_expected) / m_expected)
+    if dp_limit is not None:
+        lim = dp_limit * 1e6
+        for k in range(N):
+            d = orf._parametric["data"][tp[k]]
+            idx = np.argsort(d[:, 2])
+            dp = float(np.interp(m[k], d[idx, 2], d[idx, 3]))
+            o.check(dp <= lim * (1 + 1e-9), "pressure_drop_limit_exceeded" + tag,
+                    "assembly %d (group %d): flow %.6g kg/s -> %.6g Pa > limit %.6g Pa" % (sid[k], g[k], m[k], dp, lim))
+        o.classes["dp_limited"] = bool(np.any(orf._dp_limit))
+    o.classes["negative_flow"] = o.classes.get("negative_flow", False) or bool(np.any(m <= 0))
+    return True
+
+
 # ------------------------------------------------------------------------------------------------
 def curve(ct, power, t_in, n_pts=12):
     """Parametric sweep table of one assembly type, columns as run_parametric writes them:
@@ -249,29 +278,9 @@ def run_history(spec):
             break
         m = np.asarray(m, float)
         tag = "_iter%d" % min(it + 1, 2)
-        ok = m.shape == (N,) and bool(np.all(np.isfinite(m)))
-        o.check(ok, "flows_not_finite" + tag, "shape %s, finite %s" % (m.shape, bool(np.all(np.isfinite(m))) if m.shape == (N,) else "-"))
-        if not ok:
+        if not check_distribution(o, orf, m, n, sid, tp, m_expected, spec["dp_limit"], tag):
             break
-        g = np.asarray(orf.group_data)[:, 2].astype(int)
-        for gi in range(n):
-            mg = m[g == gi]
-            o.check(mg.size > 0 and bool(np.all(mg == mg[0])), "unequal_flow_within_group" + tag,
-                    "group %d flows %s" % (gi, mg[:6].tolist()))
         tot = float(np.sum(m))
-        o.check(abs(tot - m_expected) <= 1e-9 * m_expected + 1e-12, "flows_do_not_sum_to_required_total" + tag,
-                "sum %.12g, required %.12g (bulk rise %.6g K)" % (tot, m_expected, dT_target))
-        o.metrics["rel_flow_sum_error"] = max(o.metrics.get("rel_flow_sum_error", 0.0), abs(tot - m_expected) / m_expected)
-        if spec["dp_limit"] is not None:
-            lim = spec["dp_limit"] * 1e6
-            for k in range(N):
-                d = orf._parametric["data"][tp[k]]
-                idx = np.argsort(d[:, 2])
-                dp = float(np.interp(m[k], d[idx, 2], d[idx, 3]))
-                o.check(dp <= lim * (1 + 1e-9), "pressure_drop_limit_exceeded" + tag,
-                        "assembly %d (group %d): flow %.6g kg/s -> %.6g Pa > limit %.6g Pa" % (sid[k], g[k], m[k], dp, lim))
-            o.classes["dp_limited"] = bool(np.any(orf._dp_limit))
-        o.classes["negative_flow"] = o.classes.get("negative_flow", False) or bool(np.any(m <= 0))
         done += 1
         if np.any(orf._dp_limit) or bool(np.any(m <= 0)):
             break               # optimize() stops iterating here too
@@ -345,9 +354,171 @@ def history_specs(draw, q):
             "timesteps": draw(st.integers(1, 2)), "iters": iters, "coolant": draw(st.sampled_from(["const", "sodium"]))}
 
 
+# ------------------------------------------------------------------------------------------------
+def run_pipeline(spec):
+    """The real chain on a generated core: Orificing(inp) -> group_by_power -> run_parametric (12 single-assembly sweeps per
+    type) -> distribute -> run_dassh_orifice -> (regroup) -> distribute."""
+    import contextlib
+    import io
+    import dassh
+    import dassh.orificing
+    import dassh.__main__          # (loaded by the dassh entry point in a real run; run_dassh_orifice uses it)
+    o = Outcome()
+    extra = spec["_orf"]
+    sp = {k: v for k, v in spec.items() if k != "_orf"}
+    grouped = sp["orificing"]["assemblies_to_group"]
+    n = sp["orificing"]["n_groups"]
+    pos = sorted(sp["_meta"]["pos"], key=lambda p: p["idx"])
+    sid = [p["idx"] for p in pos if p["type"] in grouped]
+    tp = [grouped.index(p["type"]) for p in pos if p["type"] in grouped]
+    o.classes.update({"n_asm": len(sid), "n_groups": n, "n_types": len(grouped), "timepoints": len(sp["power"]["files"]),
+                      "interleaved_types": tp != sorted(tp), "regroup": extra["regroup"], "opt": sp["orificing"]["value_to_optimize"]})
+    with drive.Case(sp) as c:
+        c.resolve_length()
+        c.write()
+        inp = c.read()
+        sink = io.StringIO()
+
+        def call(stage, f, *a):
+            with contextlib.redirect_stdout(sink):
+                return drive.guarded(stage, f, *a)
+        try:
+            orf = call("orificing_init", dassh.orificing.Orificing, inp)
+            orf.orifice_input["regroup"] = extra["regroup"]
+            call("group_by_power", orf.group_by_power)
+        except drive.Rejected as e:
+            o.inconclusive = "grouping_error"
+            return o
+        except drive.Crashed as e:
+            o.fail("cannot_evaluate:%s@%s" % (e.exc_type, e.where), str(e)[:300])
+            return o
+        gd = np.asarray(orf.group_data, float)
+        if not check_partition(o, gd, sid, n, "_initial"):
+            return o
+        check_order(o, gd, "_initial")
+        try:
+            call("run_parametric", orf.run_parametric)
+        except drive.Rejected as e:
+            o.inconclusive = "parametric_error"
+            return o
+        except drive.Crashed as e:
+            o.fail("cannot_evaluate:%s@%s" % (e.exc_type, e.where), str(e)[:300])
+            return o
+        t_in = float(orf.t_in)
+        dT_target = float(orf.orifice_input["bulk_coolant_temp"]) - t_in
+        cool = orf.coolant
+        cool.update(t_in + 0.5 * dT_target)
+        cp_mean = float(cool.heat_capacity)
+        cool.update(t_in)
+        P = np.asarray(orf._power, float)
+        o.check(P.shape == (len(sid), 2) and [int(x) for x in P[:, 0]] == sid, "power_table_ids", str(P[:, 0].tolist()[:10]))
+        m_expected = float(np.sum(P[:, 1])) / cp_mean / dT_target
+        dp_limit = None
+        if extra["dp_f"] is not None:
+            # a limit placed on the first type's curve relative to the average flow (MPa)
+            d = orf._parametric["data"][0]
+            idx = np.argsort(d[:, 2])
+            dp_limit = float(np.interp(m_expected / len(sid) * extra["dp_f"], d[idx, 2], d[idx, 3])) / 1e6
+            orf.orifice_input["pressure_drop_limit"] = dp_limit
+        o.classes["dp_limit"] = dp_limit is not None
+        res_prev, t_out_prev = None, None
+        done = 0
+        for it in range(extra["iterations"]):
+            if it >= 1 and extra["regroup"] != "never" and (extra["regroup"] == "every" or it == 1):
+                try:
+                    call("regroup", orf.regroup, res_prev)
+                except drive.Rejected:
+                    o.classes["stopped"] = "regroup_error"
+                    break
+                except drive.Crashed as e:
+                    o.fail("cannot_evaluate:%s@%s" % (e.exc_type, e.where), "iteration %d: %s" % (it + 1, str(e)[:300]))
+                    break
+                if not check_partition(o, np.asarray(orf.group_data, float), sid, n, "_after_regroup"):
+                    break
+            try:
+                m, tlim = call("distribute", orf.distribute, res_prev, t_out_prev)
+            except drive.Rejected as e:
+                msg = str(e)
+                o.classes["stopped"] = "error:" + msg.split(":")[-1].strip()[:40]
+                if "not conserved" in msg:
+                    o.fail("flow_not_conserved_reported", "iteration %d: %s" % (it + 1, msg[:200]))
+                break
+            except drive.Crashed as e:
+                o.fail("cannot_evaluate:%s@%s" % (e.exc_type, e.where), "iteration %d: %s" % (it + 1, str(e)[:300]))
+                break
+            m = np.asarray(m, float)
+            if not check_distribution(o, orf, m, n, sid, tp, m_expected, dp_limit, "_iter%d" % min(it + 1, 2)):
+                break
+            done += 1
+            if np.any(orf._dp_limit) or bool(np.any(m <= 0)) or it + 1 == extra["iterations"]:
+                break
+            try:
+                res_prev = call("run_dassh_orifice", orf.run_dassh_orifice, it + 1, m)
+                summ = call("summarize", orf._summarize_group_data, res_prev)
+            except drive.Rejected as e:
+                o.classes["stopped"] = "sweep_error"
+                break
+            except drive.Crashed as e:
+                o.fail("cannot_evaluate:%s@%s" % (e.exc_type, e.where), "iteration %d: %s" % (it + 1, str(e)[:300]))
+                break
+            # the sweep was run with the distributed flows
+            first = res_prev[res_prev[:, 0] == res_prev[0, 0]]
+            o.check(first.shape[0] == len(sid) and bool(np.allclose(first[np.argsort(first[:, 1]), 3], m, rtol=1e-9, atol=0)),
+                    "sweep_not_run_with_distributed_flows", "flows in the results: %s" % first[:, 3].tolist()[:8])
+            t_out_prev = float(summ[-1, 0])
+            m_expected = float(np.sum(m)) * (t_out_prev - t_in) / dT_target
+        o.classes["distributions_done"] = done
+        o.nontrivial = done >= 1 and n > 1
+    return o
+
+
+@st.composite
+def pipeline_specs(draw, q):
+    spec = draw(gen.core_spec(core_rings=(2, 2), n_types=(1, 3), rings=(2, 3), ducts=(1, 1), gap_models=("none", "no_flow", "flow"),
+                              regimes=("tur",), n_steps=(5, 9), lowfi=False, regions=False, max_cells=2, byp_frac=(0.03, 0.3),
+                              comps=("pins", "duct", "cool")))
+    # assemblies of one type share the axial power cells and the shape (run_parametric averages their profiles)
+    pf = spec["power"]["files"][0]
+    first = {}
+    for p in sorted(spec["_meta"]["pos"], key=lambda x: x["idx"]):
+        key = str(p["idx"] + 1)
+        if p["type"] not in first:
+            first[p["type"]] = pf[key]
+        else:
+            import copy
+            ap = copy.deepcopy(first[p["type"]])
+            f = draw(st.sampled_from([1.0, 0.5]) | gen.fl(0.2, 1.5).map(gen.r6))
+            for comp in ("pins", "duct", "cool"):
+                if comp in ap:
+                    ap[comp]["base"] = [[b * f for b in cell] for cell in ap[comp]["base"]]
+            pf[key] = ap
+    spec["power"]["total_power"] = None
+    if draw(st.booleans()):
+        import copy
+        pf2 = copy.deepcopy(pf)
+        f2 = gen.r6(draw(gen.fl(0.7, 1.3)))
+        for ap in pf2.values():
+            for comp in ("pins", "duct", "cool"):
+                if comp in ap:
+                    ap[comp]["base"] = [[b * f2 for b in cell] for cell in ap[comp]["base"]]
+        spec["power"]["files"].append(pf2)
+    present = sorted(set(p["type"] for p in spec["_meta"]["pos"]))
+    grouped = draw(st.lists(st.sampled_from(present), min_size=1, max_size=len(present), unique=True))
+    grouped = list(draw(st.permutations(grouped)))
+    n_asm = sum(1 for p in spec["_meta"]["pos"] if p["type"] in grouped)
+    t_in = spec["core"]["coolant_inlet_temp"]
+    spec["orificing"] = {"assemblies_to_group": grouped, "n_groups": draw(st.integers(1, max(1, min(4, n_asm)))),
+                         "value_to_optimize": "peak coolant temp", "bulk_coolant_temp": gen.r6(t_in + draw(gen.fl(60.0, 200.0))),
+                         "iteration_limit": 3}
+    spec["_orf"] = {"regroup": draw(st.sampled_from(["never", "once", "every"])), "iterations": draw(st.integers(1, 3)),
+                    "dp_f": draw(st.none() | st.sampled_from([3.0]) | gen.fl(0.8, 4.0).map(gen.r6))}
+    return spec
+
+
 def parts(tier):
     q = tier == "quick"
     return [
         Part("grouping", run_grouping, strategy=grouping_specs(q), examples=1200 if q else 60000, timeout=60),
         Part("histories", run_history, strategy=history_specs(q), examples=800 if q else 40000, timeout=60),
+        Part("pipeline", run_pipeline, strategy=pipeline_specs(q), examples=64 if q else 1500, timeout=240),
     ]
